@@ -1,22 +1,7 @@
 
-(** val implb : bool -> bool -> bool **)
-
-let implb b1 b2 =
-  if b1 then b2 else true
-
-(** val negb : bool -> bool **)
-
-let negb = function
-| true -> false
-| false -> true
-
 type nat =
 | O
 | S of nat
-
-type ('a, 'b) sum =
-| Inl of 'a
-| Inr of 'b
 
 (** val length : 'a1 list -> nat **)
 
@@ -24,24 +9,24 @@ let rec length = function
 | [] -> O
 | _ :: l' -> S (length l')
 
-(** val app : 'a1 list -> 'a1 list -> 'a1 list **)
+(** val map : ('a1 -> 'a2) -> 'a1 list -> 'a2 list **)
 
-let rec app l m =
+let rec map f = function
+| [] -> []
+| a :: t -> (f a) :: (map f t)
+
+(** val fold_left : ('a1 -> 'a2 -> 'a1) -> 'a2 list -> 'a1 -> 'a1 **)
+
+let rec fold_left f l a0 =
   match l with
-  | [] -> m
-  | a :: l1 -> a :: (app l1 m)
+  | [] -> a0
+  | b :: t -> fold_left f t (f a0 b)
 
-type comparison =
-| Eq
-| Lt
-| Gt
+(** val existsb : ('a1 -> bool) -> 'a1 list -> bool **)
 
-(** val compOpp : comparison -> comparison **)
-
-let compOpp = function
-| Eq -> Eq
-| Lt -> Gt
-| Gt -> Lt
+let rec existsb f = function
+| [] -> false
+| a :: l0 -> (||) (f a) (existsb f l0)
 
 type positive =
 | XI of positive
@@ -112,37 +97,6 @@ module Pos =
   | XO p -> XI (pred_double p)
   | XH -> XH
 
-  (** val mul : positive -> positive -> positive **)
-
-  let rec mul x y =
-    match x with
-    | XI p -> add y (XO (mul p y))
-    | XO p -> XO (mul p y)
-    | XH -> y
-
-  (** val compare_cont : comparison -> positive -> positive -> comparison **)
-
-  let rec compare_cont r x y =
-    match x with
-    | XI p ->
-      (match y with
-       | XI q -> compare_cont r p q
-       | XO q -> compare_cont Gt p q
-       | XH -> Gt)
-    | XO p ->
-      (match y with
-       | XI q -> compare_cont Lt p q
-       | XO q -> compare_cont r p q
-       | XH -> Gt)
-    | XH -> (match y with
-             | XH -> r
-             | _ -> Lt)
-
-  (** val compare : positive -> positive -> comparison **)
-
-  let compare =
-    compare_cont Eq
-
   (** val eqb : positive -> positive -> bool **)
 
   let rec eqb p q =
@@ -156,24 +110,6 @@ module Pos =
     | XH -> (match q with
              | XH -> true
              | _ -> false)
-
-  (** val of_succ_nat : nat -> positive **)
-
-  let rec of_succ_nat = function
-  | O -> XH
-  | S x -> succ (of_succ_nat x)
- end
-
-module N =
- struct
-  (** val add : n -> n -> n **)
-
-  let add n0 m =
-    match n0 with
-    | N0 -> m
-    | Npos p -> (match m with
-                 | N0 -> n0
-                 | Npos q -> Npos (Pos.add p q))
  end
 
 module Z =
@@ -235,64 +171,6 @@ module Z =
        | Zpos y' -> pos_sub y' x'
        | Zneg y' -> Zneg (Pos.add x' y'))
 
-  (** val opp : z -> z **)
-
-  let opp = function
-  | Z0 -> Z0
-  | Zpos x0 -> Zneg x0
-  | Zneg x0 -> Zpos x0
-
-  (** val sub : z -> z -> z **)
-
-  let sub m n0 =
-    add m (opp n0)
-
-  (** val mul : z -> z -> z **)
-
-  let mul x y =
-    match x with
-    | Z0 -> Z0
-    | Zpos x' ->
-      (match y with
-       | Z0 -> Z0
-       | Zpos y' -> Zpos (Pos.mul x' y')
-       | Zneg y' -> Zneg (Pos.mul x' y'))
-    | Zneg x' ->
-      (match y with
-       | Z0 -> Z0
-       | Zpos y' -> Zneg (Pos.mul x' y')
-       | Zneg y' -> Zpos (Pos.mul x' y'))
-
-  (** val compare : z -> z -> comparison **)
-
-  let compare x y =
-    match x with
-    | Z0 -> (match y with
-             | Z0 -> Eq
-             | Zpos _ -> Lt
-             | Zneg _ -> Gt)
-    | Zpos x' -> (match y with
-                  | Zpos y' -> Pos.compare x' y'
-                  | _ -> Gt)
-    | Zneg x' ->
-      (match y with
-       | Zneg y' -> compOpp (Pos.compare x' y')
-       | _ -> Lt)
-
-  (** val leb : z -> z -> bool **)
-
-  let leb x y =
-    match compare x y with
-    | Gt -> false
-    | _ -> true
-
-  (** val ltb : z -> z -> bool **)
-
-  let ltb x y =
-    match compare x y with
-    | Lt -> true
-    | _ -> false
-
   (** val eqb : z -> z -> bool **)
 
   let eqb x y =
@@ -306,411 +184,204 @@ module Z =
     | Zneg p -> (match y with
                  | Zneg q -> Pos.eqb p q
                  | _ -> false)
-
-  (** val of_nat : nat -> z **)
-
-  let of_nat = function
-  | O -> Z0
-  | S n1 -> Zpos (Pos.of_succ_nat n1)
-
-  (** val pos_div_eucl : positive -> z -> z * z **)
-
-  let rec pos_div_eucl a b =
-    match a with
-    | XI a' ->
-      let (q, r) = pos_div_eucl a' b in
-      let r' = add (mul (Zpos (XO XH)) r) (Zpos XH) in
-      if ltb r' b
-      then ((mul (Zpos (XO XH)) q), r')
-      else ((add (mul (Zpos (XO XH)) q) (Zpos XH)), (sub r' b))
-    | XO a' ->
-      let (q, r) = pos_div_eucl a' b in
-      let r' = mul (Zpos (XO XH)) r in
-      if ltb r' b
-      then ((mul (Zpos (XO XH)) q), r')
-      else ((add (mul (Zpos (XO XH)) q) (Zpos XH)), (sub r' b))
-    | XH -> if leb (Zpos (XO XH)) b then (Z0, (Zpos XH)) else ((Zpos XH), Z0)
-
-  (** val div_eucl : z -> z -> z * z **)
-
-  let div_eucl a b =
-    match a with
-    | Z0 -> (Z0, Z0)
-    | Zpos a' ->
-      (match b with
-       | Z0 -> (Z0, a)
-       | Zpos _ -> pos_div_eucl a' b
-       | Zneg b' ->
-         let (q, r) = pos_div_eucl a' (Zpos b') in
-         (match r with
-          | Z0 -> ((opp q), Z0)
-          | _ -> ((opp (add q (Zpos XH))), (add b r))))
-    | Zneg a' ->
-      (match b with
-       | Z0 -> (Z0, a)
-       | Zpos _ ->
-         let (q, r) = pos_div_eucl a' b in
-         (match r with
-          | Z0 -> ((opp q), Z0)
-          | _ -> ((opp (add q (Zpos XH))), (sub b r)))
-       | Zneg b' -> let (q, r) = pos_div_eucl a' (Zpos b') in (q, (opp r)))
-
-  (** val modulo : z -> z -> z **)
-
-  let modulo a b =
-    let (_, r) = div_eucl a b in r
  end
 
-(** val map : ('a1 -> 'a2) -> 'a1 list -> 'a2 list **)
-
-let rec map f = function
-| [] -> []
-| a :: t -> (f a) :: (map f t)
-
-(** val flat_map : ('a1 -> 'a2 list) -> 'a1 list -> 'a2 list **)
-
-let rec flat_map f = function
-| [] -> []
-| x :: t -> app (f x) (flat_map f t)
-
-(** val existsb : ('a1 -> bool) -> 'a1 list -> bool **)
-
-let rec existsb f = function
-| [] -> false
-| a :: l0 -> (||) (f a) (existsb f l0)
-
-(** val forallb : ('a1 -> bool) -> 'a1 list -> bool **)
-
-let rec forallb f = function
-| [] -> true
-| a :: l0 -> (&&) (f a) (forallb f l0)
-
-(** val filter : ('a1 -> bool) -> 'a1 list -> 'a1 list **)
-
-let rec filter f = function
-| [] -> []
-| x :: l0 -> if f x then x :: (filter f l0) else filter f l0
+type bytes = n list
 
 type target =
 | TCredit
 | TDebit
 | TNone
 
-(** val target_eqb : target -> target -> bool **)
-
-let target_eqb a b =
-  match a with
-  | TCredit -> (match b with
-                | TCredit -> true
-                | _ -> false)
-  | TDebit -> (match b with
-               | TDebit -> true
-               | _ -> false)
-  | TNone -> (match b with
-              | TNone -> true
-              | _ -> false)
-
 type seg_arm = { sa_codes : z list; sa_target : target; sa_unknown : bool }
-
-type scc_kind =
-| SSplit of z * z
-| SReuseCredit
-| SReuseDebit
-| SUnknown
-
-type scc_arm = { sc_code : z; sc_kind : scc_kind }
 
 (** val memz : z -> z list -> bool **)
 
 let memz c l =
   existsb (Z.eqb c) l
 
-(** val classify : seg_arm list -> z -> target **)
-
-let rec classify arms c =
-  match arms with
-  | [] -> TNone
-  | a :: r -> if memz c a.sa_codes then a.sa_target else classify r c
-
-(** val digit_dir : z -> target **)
-
-let digit_dir c =
-  if (||) (Z.ltb c (Zpos (XO (XI (XO XH)))))
-       (Z.ltb (Zpos (XI (XI (XO (XO (XO (XI XH))))))) c)
-  then TNone
-  else let u = Z.modulo c (Zpos (XO (XI (XO XH)))) in
-       if (&&) (Z.leb (Zpos XH) u) (Z.leb u (Zpos (XO (XO XH))))
-       then TCredit
-       else if Z.leb (Zpos (XI (XO XH))) u then TDebit else TNone
-
-(** val entry_code : z list -> z -> bool **)
-
-let entry_code std c =
-  (&&) ((&&) (memz c std) (Z.leb (Zpos (XO (XO (XI (XO XH))))) c))
-    (Z.ltb c (Zpos (XO (XO (XI (XI (XI XH)))))))
-
 type entry = { e_code : z; e_amount : z; e_id : n; e_trace : n }
 
-(** val goes : seg_arm list -> target -> entry -> bool **)
+type rflag =
+| FCredits
+| FDebits
+| FNoFlag
+| FBothFlags
 
-let goes arms t e =
-  target_eqb (classify arms e.e_code) t
+type rev_arm = { ra_codes : z list; ra_delta : z; ra_flag : rflag;
+                 ra_unknown : bool }
 
-(** val sum_dir : seg_arm list -> target -> entry list -> z **)
+type fcond =
+| CCredits
+| CDebits
+| CBoth
+| CUnknown
 
-let rec sum_dir arms t = function
-| [] -> Z0
-| e :: r ->
-  Z.add (if goes arms t e then e.e_amount else Z0) (sum_dir arms t r)
+type rev_fixup = { fx_cond : fcond; fx_hdr : z; fx_ctl : z; fx_unknown : bool }
 
-(** val all_dir : target -> entry list -> bool **)
+(** val rev_lookup : rev_arm list -> z -> rev_arm option **)
 
-let all_dir t es =
-  forallb (fun e -> target_eqb (digit_dir e.e_code) t) es
-
-type stables = { st_seg_std : seg_arm list; st_seg_iat : seg_arm list;
-                 st_seg_adv : seg_arm list; st_amt_std : seg_arm list;
-                 st_amt_iat : seg_arm list; st_amt_adv : seg_arm list;
-                 st_scc_std : scc_arm list; st_scc_iat : scc_arm list;
-                 st_codes : z list }
-
-(** val scc_lookup : scc_arm list -> z -> scc_kind option **)
-
-let rec scc_lookup arms scc =
+let rec rev_lookup arms c =
   match arms with
   | [] -> None
-  | a :: r -> if Z.eqb a.sc_code scc then Some a.sc_kind else scc_lookup r scc
+  | a :: r -> if memz c a.ra_codes then Some a else rev_lookup r c
 
-type sbatch = { sb_adv : bool; sb_scc : z; sb_num : z; sb_ident : n;
-                sb_credit : z; sb_debit : z; sb_entries : entry list }
+(** val rev_code : rev_arm list -> z -> z **)
 
-type sfile = { sf_origin : n; sf_dest : n; sf_batches : sbatch list;
-               sf_iat : sbatch list; sf_credit : z; sf_debit : z }
+let rev_code arms c =
+  match rev_lookup arms c with
+  | Some a -> Z.add c a.ra_delta
+  | None -> c
 
-(** val empty_file : sfile **)
+(** val flag_credits : rflag -> bool **)
 
-let empty_file =
-  { sf_origin = N0; sf_dest = N0; sf_batches = []; sf_iat = []; sf_credit =
-    Z0; sf_debit = Z0 }
+let flag_credits = function
+| FCredits -> true
+| FBothFlags -> true
+| _ -> false
 
-(** val dir_of : bool -> target **)
+(** val flag_debits : rflag -> bool **)
 
-let dir_of = function
-| true -> TCredit
-| false -> TDebit
+let flag_debits = function
+| FCredits -> false
+| FNoFlag -> false
+| _ -> true
 
-(** val fresh :
-    seg_arm list -> bool -> z -> n -> entry list -> sbatch list **)
+(** val arm_flags : rev_arm list -> z -> bool * bool **)
 
-let fresh amt adv scc ident es = match es with
-| [] -> []
-| _ :: _ ->
-  { sb_adv = adv; sb_scc = scc; sb_num = (Zpos XH); sb_ident = ident;
-    sb_credit = (sum_dir amt TCredit es); sb_debit = (sum_dir amt TDebit es);
-    sb_entries = es } :: []
+let arm_flags arms c =
+  match rev_lookup arms c with
+  | Some a -> ((flag_credits a.ra_flag), (flag_debits a.ra_flag))
+  | None -> (false, false)
 
-(** val retrace : n -> entry list -> entry list **)
+(** val fix_fires : bool -> bool -> fcond -> bool **)
 
-let rec retrace seq = function
-| [] -> []
+let fix_fires hc hd = function
+| CCredits -> hc
+| CDebits -> hd
+| CBoth -> (&&) hc hd
+| CUnknown -> false
+
+(** val apply_fixups : rev_fixup list -> bool -> bool -> (z * z) option **)
+
+let apply_fixups fx hc hd =
+  fold_left (fun acc x ->
+    if fix_fires hc hd x.fx_cond then Some (x.fx_hdr, x.fx_ctl) else acc) fx
+    None
+
+type rtables = { rt_arms : rev_arm list; rt_fix : rev_fixup list;
+                 rt_desc : bytes; rt_amt : seg_arm list; rt_std : z list;
+                 rt_pre : z list }
+
+type rbatch = { rb_scc_h : z; rb_scc_c : z; rb_desc : bytes; rb_date : 
+                bytes; rb_debit : z; rb_credit : z; rb_entries : entry list }
+
+type rfile = { rf_date : bytes; rf_time : bytes; rf_batches : rbatch list;
+               rf_debit : z; rf_credit : z }
+
+(** val rev_entry : rev_arm list -> entry -> entry **)
+
+let rev_entry arms e =
+  { e_code = (rev_code arms e.e_code); e_amount = e.e_amount; e_id = e.e_id;
+    e_trace = e.e_trace }
+
+(** val entry_flags : rev_arm list -> entry list -> bool * bool **)
+
+let rec entry_flags arms = function
+| [] -> (false, false)
 | e :: r ->
-  { e_code = e.e_code; e_amount = e.e_amount; e_id = e.e_id; e_trace =
-    seq } :: (retrace (N.add seq (Npos XH)) r)
+  let (c, d) = arm_flags arms e.e_code in
+  let (c2, d2) = entry_flags arms r in (((||) c c2), ((||) d d2))
 
-(** val part : stables -> bool -> sbatch -> sbatch list **)
+(** val reversal_batch : rtables -> bytes -> rbatch -> rbatch **)
 
-let part t cr b =
-  if b.sb_adv
-  then if Z.eqb b.sb_scc (Zpos (XO (XO (XO (XI (XI (XO (XO (XO XH)))))))))
-       then fresh t.st_amt_adv true (Zpos (XO (XO (XO (XI (XI (XO (XO (XO
-              XH))))))))) b.sb_ident
-              (filter (goes t.st_seg_adv (dir_of cr)) b.sb_entries)
-       else []
-  else (match scc_lookup t.st_scc_std b.sb_scc with
-        | Some s ->
-          (match s with
-           | SSplit (c, d) ->
-             fresh t.st_amt_std false (if cr then c else d) b.sb_ident
-               (filter (goes t.st_seg_std (dir_of cr)) b.sb_entries)
-           | SReuseCredit -> if cr then b :: [] else []
-           | SReuseDebit -> if cr then [] else b :: []
-           | SUnknown -> [])
-        | None -> [])
+let reversal_batch t d b =
+  let es' = map (rev_entry t.rt_arms) b.rb_entries in
+  let (hc, hd) = entry_flags t.rt_arms b.rb_entries in
+  let (sh, sc) =
+    match apply_fixups t.rt_fix hc hd with
+    | Some p -> p
+    | None -> (b.rb_scc_h, b.rb_scc_c)
+  in
+  { rb_scc_h = sh; rb_scc_c = sc; rb_desc = t.rt_desc; rb_date = d;
+  rb_debit = b.rb_credit; rb_credit = b.rb_debit; rb_entries = es' }
 
-(** val ipart : stables -> bool -> sbatch -> sbatch list **)
+(** val sum_debit : rbatch list -> z **)
 
-let ipart t cr b =
-  match scc_lookup t.st_scc_iat b.sb_scc with
-  | Some s ->
-    (match s with
-     | SSplit (c, d) ->
-       fresh t.st_amt_iat false (if cr then c else d) b.sb_ident
-         (retrace (Npos XH)
-           (filter (goes t.st_seg_iat (dir_of cr)) b.sb_entries))
-     | SReuseCredit -> if cr then b :: [] else []
-     | SReuseDebit -> if cr then [] else b :: []
-     | SUnknown -> [])
-  | None -> []
-
-(** val renumber : z -> sbatch list -> sbatch list **)
-
-let rec renumber seq = function
-| [] -> []
-| b :: r ->
-  (if Z.leb b.sb_num (Zpos XH)
-   then { sb_adv = b.sb_adv; sb_scc = b.sb_scc; sb_num = seq; sb_ident =
-          b.sb_ident; sb_credit = b.sb_credit; sb_debit = b.sb_debit;
-          sb_entries = b.sb_entries }
-   else b) :: (renumber (Z.add seq (Zpos XH)) r)
-
-(** val tot_credit : sbatch list -> z **)
-
-let rec tot_credit = function
+let rec sum_debit = function
 | [] -> Z0
-| b :: r -> Z.add b.sb_credit (tot_credit r)
+| b :: r -> Z.add b.rb_debit (sum_debit r)
 
-(** val tot_debit : sbatch list -> z **)
+(** val sum_credit : rbatch list -> z **)
 
-let rec tot_debit = function
+let rec sum_credit = function
 | [] -> Z0
-| b :: r -> Z.add b.sb_debit (tot_debit r)
+| b :: r -> Z.add b.rb_credit (sum_credit r)
 
-(** val is_adv_file : sbatch list -> bool **)
+type rres =
+| ROk of rfile
+| RErrNoBatches
 
-let is_adv_file bs =
-  existsb (fun s -> s.sb_adv) bs
+(** val reversal_file : rtables -> bytes -> bytes -> rfile -> rres **)
 
-type verr =
-| VBatch
-| VTotals
-| VAscending
+let reversal_file t d t0 f =
+  let bs = map (reversal_batch t d) f.rf_batches in
+  (match bs with
+   | [] -> RErrNoBatches
+   | _ :: _ ->
+     ROk { rf_date = d; rf_time = t0; rf_batches = bs; rf_debit =
+       (sum_debit bs); rf_credit = (sum_credit bs) })
 
-type serr =
-| EInput of verr
-| EAdvOnly
-| EOutput of verr
+(** val reversal_arms : rev_arm list **)
 
-(** val create : n -> n -> sbatch list -> sbatch list -> sfile option **)
+let reversal_arms =
+  { ra_codes = ((Zpos (XO (XI (XI (XO XH))))) :: ((Zpos (XI (XO (XI (XO
+    XH))))) :: ((Zpos (XI (XI (XI (XO XH))))) :: ((Zpos (XO (XO (XO (XI
+    XH))))) :: ((Zpos (XO (XI (XO (XI (XO XH)))))) :: ((Zpos (XI (XI (XO (XI
+    (XO XH)))))) :: ((Zpos (XI (XO (XO (XI (XO XH)))))) :: ((Zpos (XO (XO (XI
+    (XI (XO XH)))))) :: ((Zpos (XI (XO (XI (XO (XI XH)))))) :: ((Zpos (XI (XI
+    (XO (XO (XI XH)))))) :: ((Zpos (XO (XI (XI (XO (XI XH)))))) :: ((Zpos (XO
+    (XO (XO (XO (XO XH)))))) :: ((Zpos (XI (XO (XO (XO (XO XH)))))) :: ((Zpos
+    (XI (XI (XI (XI XH))))) :: ((Zpos (XO (XI (XO (XO (XO
+    XH)))))) :: []))))))))))))))); ra_delta = (Zpos (XI (XO XH))); ra_flag =
+    FDebits; ra_unknown = false } :: ({ ra_codes = ((Zpos (XO (XO (XI (XO (XI
+    XH)))))) :: []); ra_delta = (Zpos (XI XH)); ra_flag = FDebits;
+    ra_unknown = false } :: ({ ra_codes = ((Zpos (XI (XI (XO (XI
+    XH))))) :: ((Zpos (XO (XO (XI (XI XH))))) :: ((Zpos (XO (XI (XO (XI
+    XH))))) :: ((Zpos (XI (XO (XI (XI XH))))) :: ((Zpos (XI (XI (XI (XI (XO
+    XH)))))) :: ((Zpos (XO (XO (XO (XO (XI XH)))))) :: ((Zpos (XO (XI (XI (XI
+    (XO XH)))))) :: ((Zpos (XI (XO (XO (XO (XI XH)))))) :: ((Zpos (XO (XO (XO
+    (XI (XI XH)))))) :: ((Zpos (XI (XO (XI (XO (XO XH)))))) :: ((Zpos (XO (XI
+    (XI (XO (XO XH)))))) :: ((Zpos (XO (XO (XI (XO (XO XH)))))) :: ((Zpos (XI
+    (XI (XI (XO (XO XH)))))) :: []))))))))))))); ra_delta = (Zneg (XI (XO
+    XH))); ra_flag = FCredits; ra_unknown = false } :: ({ ra_codes = ((Zpos
+    (XI (XI (XI (XO (XI XH)))))) :: []); ra_delta = (Zneg (XI XH)); ra_flag =
+    FCredits; ra_unknown = false } :: [])))
 
-let create origin dest bs is =
-  if is_adv_file bs
-  then if forallb (fun s -> s.sb_adv) bs
-       then let bs' = renumber (Zpos XH) bs in
-            Some { sf_origin = origin; sf_dest = dest; sf_batches = bs';
-            sf_iat = is; sf_credit = (tot_credit bs'); sf_debit =
-            (tot_debit bs') }
-       else None
-  else let bs' = renumber (Zpos XH) bs in
-       let is' = renumber (Z.add (Zpos XH) (Z.of_nat (length bs))) is in
-       Some { sf_origin = origin; sf_dest = dest; sf_batches = bs'; sf_iat =
-       is'; sf_credit = (Z.add (tot_credit bs') (tot_credit is')); sf_debit =
-       (Z.add (tot_debit bs') (tot_debit is')) }
+(** val reversal_fixups : rev_fixup list **)
 
-(** val dir_wf : stables -> sbatch -> bool **)
+let reversal_fixups =
+  { fx_cond = CCredits; fx_hdr = (Zpos (XO (XO (XI (XI (XI (XO (XI
+    XH)))))))); fx_ctl = (Zpos (XO (XO (XI (XI (XI (XO (XI XH))))))));
+    fx_unknown = false } :: ({ fx_cond = CDebits; fx_hdr = (Zpos (XI (XO (XO
+    (XO (XO (XI (XI XH)))))))); fx_ctl = (Zpos (XI (XO (XO (XO (XO (XI (XI
+    XH)))))))); fx_unknown = false } :: ({ fx_cond = CBoth; fx_hdr = (Zpos
+    (XO (XO (XO (XI (XO (XO (XI XH)))))))); fx_ctl = (Zpos (XO (XO (XO (XI
+    (XO (XO (XI XH)))))))); fx_unknown = false } :: []))
 
-let dir_wf t b =
-  (&&)
-    ((&&)
-      ((&&)
-        (memz b.sb_scc ((Zpos (XO (XO (XO (XI (XO (XO (XI
-          XH)))))))) :: ((Zpos (XO (XO (XI (XI (XI (XO (XI
-          XH)))))))) :: ((Zpos (XI (XO (XO (XO (XO (XI (XI
-          XH)))))))) :: []))))
-        (forallb (fun e -> entry_code t.st_codes e.e_code) b.sb_entries))
-      (implb (Z.eqb b.sb_scc (Zpos (XO (XO (XI (XI (XI (XO (XI XH)))))))))
-        (all_dir TCredit b.sb_entries)))
-    (implb (Z.eqb b.sb_scc (Zpos (XI (XO (XO (XO (XO (XI (XI XH)))))))))
-      (all_dir TDebit b.sb_entries))
+(** val reversal_description : n list **)
 
-(** val ctl_wf : seg_arm list -> sbatch -> bool **)
+let reversal_description =
+  (Npos (XO (XI (XO (XO (XI (XO XH))))))) :: ((Npos (XI (XO (XI (XO (XO (XO
+    XH))))))) :: ((Npos (XO (XI (XI (XO (XI (XO XH))))))) :: ((Npos (XI (XO
+    (XI (XO (XO (XO XH))))))) :: ((Npos (XO (XI (XO (XO (XI (XO
+    XH))))))) :: ((Npos (XI (XI (XO (XO (XI (XO XH))))))) :: ((Npos (XI (XO
+    (XO (XO (XO (XO XH))))))) :: ((Npos (XO (XO (XI (XI (XO (XO
+    XH))))))) :: [])))))))
 
-let ctl_wf amt b =
-  (&&)
-    ((&&) (match b.sb_entries with
-           | [] -> false
-           | _ :: _ -> true)
-      (Z.eqb b.sb_credit (sum_dir amt TCredit b.sb_entries)))
-    (Z.eqb b.sb_debit (sum_dir amt TDebit b.sb_entries))
+(** val rev_amount_arms : seg_arm list **)
 
-(** val batch_ok : stables -> sbatch -> bool **)
-
-let batch_ok t b =
-  (&&) ((&&) (negb b.sb_adv) (ctl_wf t.st_amt_std b)) (dir_wf t b)
-
-(** val ascending : z -> z list -> bool **)
-
-let rec ascending last = function
-| [] -> true
-| n0 :: r -> (&&) (Z.ltb last n0) (ascending n0 r)
-
-(** val validate : stables -> sfile -> verr option **)
-
-let validate t f =
-  if is_adv_file f.sf_batches
-  then if (&&) (Z.eqb f.sf_credit (tot_credit f.sf_batches))
-            (Z.eqb f.sf_debit (tot_debit f.sf_batches))
-       then None
-       else Some VTotals
-  else if negb (forallb (batch_ok t) f.sf_batches)
-       then Some VBatch
-       else if negb
-                 ((&&)
-                   (Z.eqb f.sf_credit
-                     (Z.add (tot_credit f.sf_batches) (tot_credit f.sf_iat)))
-                   (Z.eqb f.sf_debit
-                     (Z.add (tot_debit f.sf_batches) (tot_debit f.sf_iat))))
-            then Some VTotals
-            else if negb (ascending Z0 (map (fun s -> s.sb_num) f.sf_batches))
-                 then Some VAscending
-                 else None
-
-type sres =
-| SOk of sfile * sfile
-| SErr of serr
-
-(** val finish :
-    stables -> n -> n -> sbatch list -> sbatch list -> (sfile, serr) sum **)
-
-let finish t origin dest bs is =
-  match bs with
-  | [] ->
-    (match is with
-     | [] -> Inl empty_file
-     | _ :: _ ->
-       (match create origin dest bs is with
-        | Some g ->
-          (match validate t g with
-           | Some v -> Inr (EOutput v)
-           | None -> Inl g)
-        | None -> Inr EAdvOnly))
-  | _ :: _ ->
-    (match create origin dest bs is with
-     | Some g ->
-       (match validate t g with
-        | Some v -> Inr (EOutput v)
-        | None -> Inl g)
-     | None -> Inr EAdvOnly)
-
-(** val segment : stables -> sfile -> sres **)
-
-let segment t f =
-  match validate t f with
-  | Some v -> SErr (EInput v)
-  | None ->
-    let out = fun cr ->
-      finish t f.sf_origin f.sf_dest (flat_map (part t cr) f.sf_batches)
-        (flat_map (ipart t cr) f.sf_iat)
-    in
-    (match out true with
-     | Inl cf ->
-       (match out false with
-        | Inl df -> SOk (cf, df)
-        | Inr e -> SErr e)
-     | Inr e -> SErr e)
-
-(** val seg_std_arms : seg_arm list **)
-
-let seg_std_arms =
+let rev_amount_arms =
   { sa_codes = ((Zpos (XO (XI (XI (XO XH))))) :: ((Zpos (XI (XO (XI (XO
     XH))))) :: ((Zpos (XI (XI (XI (XO XH))))) :: ((Zpos (XO (XO (XO (XI
     XH))))) :: ((Zpos (XO (XO (XO (XO (XO XH)))))) :: ((Zpos (XI (XI (XI (XI
@@ -731,102 +402,9 @@ let seg_std_arms =
     XH)))))) :: [])))))))))))))); sa_target = TDebit; sa_unknown =
     false } :: [])
 
-(** val seg_iat_arms : seg_arm list **)
+(** val rev_standard_codes : z list **)
 
-let seg_iat_arms =
-  { sa_codes = ((Zpos (XO (XI (XI (XO XH))))) :: ((Zpos (XI (XO (XI (XO
-    XH))))) :: ((Zpos (XI (XI (XI (XO XH))))) :: ((Zpos (XO (XO (XO (XI
-    XH))))) :: ((Zpos (XO (XO (XO (XO (XO XH)))))) :: ((Zpos (XI (XI (XI (XI
-    XH))))) :: ((Zpos (XI (XO (XO (XO (XO XH)))))) :: ((Zpos (XO (XI (XO (XO
-    (XO XH)))))) :: ((Zpos (XO (XI (XO (XI (XO XH)))))) :: ((Zpos (XI (XO (XO
-    (XI (XO XH)))))) :: ((Zpos (XI (XI (XO (XI (XO XH)))))) :: ((Zpos (XO (XO
-    (XI (XI (XO XH)))))) :: ((Zpos (XO (XO (XI (XO (XI XH)))))) :: ((Zpos (XI
-    (XI (XO (XO (XI XH)))))) :: ((Zpos (XI (XO (XI (XO (XI XH)))))) :: ((Zpos
-    (XO (XI (XI (XO (XI XH)))))) :: [])))))))))))))))); sa_target = TCredit;
-    sa_unknown = false } :: ({ sa_codes = ((Zpos (XI (XI (XO (XI
-    XH))))) :: ((Zpos (XO (XI (XO (XI XH))))) :: ((Zpos (XO (XO (XI (XI
-    XH))))) :: ((Zpos (XI (XO (XI (XI XH))))) :: ((Zpos (XI (XO (XI (XO (XO
-    XH)))))) :: ((Zpos (XO (XO (XI (XO (XO XH)))))) :: ((Zpos (XO (XI (XI (XO
-    (XO XH)))))) :: ((Zpos (XI (XI (XI (XO (XO XH)))))) :: ((Zpos (XI (XI (XI
-    (XI (XO XH)))))) :: ((Zpos (XO (XI (XI (XI (XO XH)))))) :: ((Zpos (XO (XO
-    (XO (XO (XI XH)))))) :: ((Zpos (XI (XO (XO (XO (XI XH)))))) :: ((Zpos (XI
-    (XI (XI (XO (XI XH)))))) :: ((Zpos (XO (XO (XO (XI (XI
-    XH)))))) :: [])))))))))))))); sa_target = TDebit; sa_unknown =
-    false } :: [])
-
-(** val seg_adv_arms : seg_arm list **)
-
-let seg_adv_arms =
-  { sa_codes = ((Zpos (XI (XO (XO (XO (XI (XO XH))))))) :: ((Zpos (XI (XI (XO
-    (XO (XI (XO XH))))))) :: ((Zpos (XI (XO (XI (XO (XI (XO
-    XH))))))) :: ((Zpos (XI (XI (XI (XO (XI (XO XH))))))) :: []))));
-    sa_target = TCredit; sa_unknown = false } :: ({ sa_codes = ((Zpos (XO (XI
-    (XO (XO (XI (XO XH))))))) :: ((Zpos (XO (XO (XI (XO (XI (XO
-    XH))))))) :: ((Zpos (XO (XI (XI (XO (XI (XO XH))))))) :: ((Zpos (XO (XO
-    (XO (XI (XI (XO XH))))))) :: [])))); sa_target = TDebit; sa_unknown =
-    false } :: [])
-
-(** val amount_std_arms : seg_arm list **)
-
-let amount_std_arms =
-  { sa_codes = ((Zpos (XO (XI (XI (XO XH))))) :: ((Zpos (XI (XO (XI (XO
-    XH))))) :: ((Zpos (XI (XI (XI (XO XH))))) :: ((Zpos (XO (XO (XO (XI
-    XH))))) :: ((Zpos (XO (XO (XO (XO (XO XH)))))) :: ((Zpos (XI (XI (XI (XI
-    XH))))) :: ((Zpos (XI (XO (XO (XO (XO XH)))))) :: ((Zpos (XO (XI (XO (XO
-    (XO XH)))))) :: ((Zpos (XO (XI (XO (XI (XO XH)))))) :: ((Zpos (XI (XO (XO
-    (XI (XO XH)))))) :: ((Zpos (XI (XI (XO (XI (XO XH)))))) :: ((Zpos (XO (XO
-    (XI (XI (XO XH)))))) :: ((Zpos (XO (XO (XI (XO (XI XH)))))) :: ((Zpos (XI
-    (XI (XO (XO (XI XH)))))) :: ((Zpos (XI (XO (XI (XO (XI XH)))))) :: ((Zpos
-    (XO (XI (XI (XO (XI XH)))))) :: [])))))))))))))))); sa_target = TCredit;
-    sa_unknown = false } :: ({ sa_codes = ((Zpos (XI (XI (XO (XI
-    XH))))) :: ((Zpos (XO (XI (XO (XI XH))))) :: ((Zpos (XO (XO (XI (XI
-    XH))))) :: ((Zpos (XI (XO (XI (XI XH))))) :: ((Zpos (XI (XO (XI (XO (XO
-    XH)))))) :: ((Zpos (XO (XO (XI (XO (XO XH)))))) :: ((Zpos (XO (XI (XI (XO
-    (XO XH)))))) :: ((Zpos (XI (XI (XI (XO (XO XH)))))) :: ((Zpos (XI (XI (XI
-    (XI (XO XH)))))) :: ((Zpos (XO (XI (XI (XI (XO XH)))))) :: ((Zpos (XO (XO
-    (XO (XO (XI XH)))))) :: ((Zpos (XI (XO (XO (XO (XI XH)))))) :: ((Zpos (XI
-    (XI (XI (XO (XI XH)))))) :: ((Zpos (XO (XO (XO (XI (XI
-    XH)))))) :: [])))))))))))))); sa_target = TDebit; sa_unknown =
-    false } :: [])
-
-(** val amount_iat_arms : seg_arm list **)
-
-let amount_iat_arms =
-  { sa_codes = ((Zpos (XO (XI (XI (XO XH))))) :: ((Zpos (XI (XO (XI (XO
-    XH))))) :: ((Zpos (XI (XI (XI (XO XH))))) :: ((Zpos (XO (XO (XO (XI
-    XH))))) :: ((Zpos (XO (XO (XO (XO (XO XH)))))) :: ((Zpos (XI (XI (XI (XI
-    XH))))) :: ((Zpos (XI (XO (XO (XO (XO XH)))))) :: ((Zpos (XO (XI (XO (XO
-    (XO XH)))))) :: ((Zpos (XO (XI (XO (XI (XO XH)))))) :: ((Zpos (XI (XO (XO
-    (XI (XO XH)))))) :: ((Zpos (XI (XI (XO (XI (XO XH)))))) :: ((Zpos (XO (XO
-    (XI (XI (XO XH)))))) :: ((Zpos (XO (XO (XI (XO (XI XH)))))) :: ((Zpos (XI
-    (XI (XO (XO (XI XH)))))) :: ((Zpos (XI (XO (XI (XO (XI XH)))))) :: ((Zpos
-    (XO (XI (XI (XO (XI XH)))))) :: [])))))))))))))))); sa_target = TCredit;
-    sa_unknown = false } :: ({ sa_codes = ((Zpos (XI (XI (XO (XI
-    XH))))) :: ((Zpos (XO (XI (XO (XI XH))))) :: ((Zpos (XO (XO (XI (XI
-    XH))))) :: ((Zpos (XI (XO (XI (XI XH))))) :: ((Zpos (XI (XO (XI (XO (XO
-    XH)))))) :: ((Zpos (XO (XO (XI (XO (XO XH)))))) :: ((Zpos (XO (XI (XI (XO
-    (XO XH)))))) :: ((Zpos (XI (XI (XI (XO (XO XH)))))) :: ((Zpos (XI (XI (XI
-    (XI (XO XH)))))) :: ((Zpos (XO (XI (XI (XI (XO XH)))))) :: ((Zpos (XO (XO
-    (XO (XO (XI XH)))))) :: ((Zpos (XI (XO (XO (XO (XI XH)))))) :: ((Zpos (XI
-    (XI (XI (XO (XI XH)))))) :: ((Zpos (XO (XO (XO (XI (XI
-    XH)))))) :: [])))))))))))))); sa_target = TDebit; sa_unknown =
-    false } :: [])
-
-(** val amount_adv_arms : seg_arm list **)
-
-let amount_adv_arms =
-  { sa_codes = ((Zpos (XI (XO (XO (XO (XI (XO XH))))))) :: ((Zpos (XI (XI (XO
-    (XO (XI (XO XH))))))) :: ((Zpos (XI (XO (XI (XO (XI (XO
-    XH))))))) :: ((Zpos (XI (XI (XI (XO (XI (XO XH))))))) :: []))));
-    sa_target = TCredit; sa_unknown = false } :: ({ sa_codes = ((Zpos (XO (XI
-    (XO (XO (XI (XO XH))))))) :: ((Zpos (XO (XO (XI (XO (XI (XO
-    XH))))))) :: ((Zpos (XO (XI (XI (XO (XI (XO XH))))))) :: ((Zpos (XO (XO
-    (XO (XI (XI (XO XH))))))) :: [])))); sa_target = TDebit; sa_unknown =
-    false } :: [])
-
-(** val seg_standard_codes : z list **)
-
-let seg_standard_codes =
+let rev_standard_codes =
   (Zpos (XI (XO (XI (XO XH))))) :: ((Zpos (XO (XI (XI (XO XH))))) :: ((Zpos
     (XI (XI (XI (XO XH))))) :: ((Zpos (XO (XO (XO (XI XH))))) :: ((Zpos (XO
     (XI (XO (XI XH))))) :: ((Zpos (XI (XI (XO (XI XH))))) :: ((Zpos (XO (XO
@@ -850,28 +428,17 @@ let seg_standard_codes =
     XH))))))) :: ((Zpos (XO (XO (XO (XI (XI (XO
     XH))))))) :: [])))))))))))))))))))))))))))))))))))))
 
-(** val seg_scc_std : scc_arm list **)
+(** val rev_prenote_codes : z list **)
 
-let seg_scc_std =
-  { sc_code = (Zpos (XO (XO (XO (XI (XO (XO (XI XH)))))))); sc_kind = (SSplit
-    ((Zpos (XO (XO (XI (XI (XI (XO (XI XH)))))))), (Zpos (XI (XO (XO (XO (XO
-    (XI (XI XH)))))))))) } :: ({ sc_code = (Zpos (XO (XO (XI (XI (XI (XO (XI
-    XH)))))))); sc_kind = SReuseCredit } :: ({ sc_code = (Zpos (XI (XO (XO
-    (XO (XO (XI (XI XH)))))))); sc_kind = SReuseDebit } :: []))
+let rev_prenote_codes =
+  (Zpos (XI (XI (XI (XO XH))))) :: ((Zpos (XO (XO (XI (XI XH))))) :: ((Zpos
+    (XI (XO (XO (XO (XO XH)))))) :: ((Zpos (XO (XI (XI (XO (XO
+    XH)))))) :: ((Zpos (XI (XI (XO (XI (XO XH)))))) :: ((Zpos (XO (XO (XO (XO
+    (XI XH)))))) :: ((Zpos (XI (XO (XI (XO (XI XH)))))) :: []))))))
 
-(** val seg_scc_iat : scc_arm list **)
+(** val rT : rtables **)
 
-let seg_scc_iat =
-  { sc_code = (Zpos (XO (XO (XO (XI (XO (XO (XI XH)))))))); sc_kind = (SSplit
-    ((Zpos (XO (XO (XI (XI (XI (XO (XI XH)))))))), (Zpos (XI (XO (XO (XO (XO
-    (XI (XI XH)))))))))) } :: ({ sc_code = (Zpos (XO (XO (XI (XI (XI (XO (XI
-    XH)))))))); sc_kind = SReuseCredit } :: ({ sc_code = (Zpos (XI (XO (XO
-    (XO (XO (XI (XI XH)))))))); sc_kind = SReuseDebit } :: []))
-
-(** val sT : stables **)
-
-let sT =
-  { st_seg_std = seg_std_arms; st_seg_iat = seg_iat_arms; st_seg_adv =
-    seg_adv_arms; st_amt_std = amount_std_arms; st_amt_iat = amount_iat_arms;
-    st_amt_adv = amount_adv_arms; st_scc_std = seg_scc_std; st_scc_iat =
-    seg_scc_iat; st_codes = seg_standard_codes }
+let rT =
+  { rt_arms = reversal_arms; rt_fix = reversal_fixups; rt_desc =
+    reversal_description; rt_amt = rev_amount_arms; rt_std =
+    rev_standard_codes; rt_pre = rev_prenote_codes }
